@@ -6,9 +6,9 @@
 EXTENDS Telemetry
 MCBuilds == {"A1", "U1"}
 MCBuildRec == ("A1" :> [program |-> "example.com/e2e/alpha", version |-> "v1.0.0", gover |-> "go1.21.0", goos |-> "linux", goarch |-> "amd64"]) @@ ("U1" :> [program |-> "example.com/e2e/alpha", version |-> "v9.9.9", gover |-> "go1.21.0", goos |-> "linux", goarch |-> "amd64"])
-MCNames == {"ok", "ch:a", "ch:z"}
-MCChars == ("ok" :> <<"o", "k">>) @@ ("ch:a" :> <<"c", "h", ":", "a">>) @@ ("ch:z" :> <<"c", "h", ":", "z">>)
-MCCarry == ("ok" :> <<"ok", "ok">>) @@ ("ch:a" :> <<"ch", "a">>) @@ ("ch:z" :> <<"ch", "z">>)
+MCNames == {"ok", "ch:a"}
+MCChars == ("ok" :> <<"o", "k">>) @@ ("ch:a" :> <<"c", "h", ":", "a">>)
+MCCarry == ("ok" :> <<"ok", "ok">>) @@ ("ch:a" :> <<"ch", "a">>)
 MCCfg == [goos |-> {"linux", "plan9"}, goarch |-> {"amd64", "riscv64"}, gover |-> {"go1.21.0", "go1.22.3"}, sample |-> 6, progs |-> {[name |-> "example.com/e2e/alpha", versions |-> {"v1.0.0", "v1.1.0"}, counters |-> {[name |-> <<"o", "k">>, rate |-> 8], [name |-> <<"c", "h", ":", "{", "a", ",", "b", "}">>, rate |-> 4]}, stacks |-> {[name |-> <<"s", "t">>, rate |-> 6]}],
    [name |-> "example.com/e2e/beta", versions |-> {"v2.0.0"}, counters |-> {[name |-> <<"o", "k">>, rate |-> 8], [name |-> <<"c", "h", ":", "{", "a", "}">>, rate |-> 8]}, stacks |-> {}]}]
 MCChartDesc == {[p |-> "example.com/e2e/alpha", c |-> "Version", bk |-> {<<"v1.0.0", "v1.0.0">>, <<"v1.1.0", "v1.1.0">>}],
